@@ -7,6 +7,7 @@ package dp
 // The wavefront extensions are not verified: they are trusted to touch only the end records and the score vectors.
 //@ func (*kernel).traceForward
 //@   trusted
+//@   ensures [marks-later] forall j int :: 0 <= j && j <= k.slot && j < len(k.covered) ==> k.covered[j] == old(k.covered[j])
 //@   assigns k.lowEnd.Aepos, k.lowEnd.Bepos, k.lowEnd.LowDiagonal, k.lowEnd.HighDiagonal, k.lowEnd.Score, k.vectors, elems(int)
 //@ func (*kernel).traceReverse
 //@   trusted
@@ -23,4 +24,5 @@ package dp
 //@   assigns k.lowEnd.Aepos, k.lowEnd.Bepos, k.lowEnd.LowDiagonal, k.lowEnd.HighDiagonal, k.lowEnd.Score, k.highEnd.Abpos, k.highEnd.Bbpos, k.highEnd.Aepos, k.highEnd.Bepos, k.highEnd.LowDiagonal, k.highEnd.HighDiagonal, k.highEnd.Score, k.highEnd.Error, k.vectors, elems(int), k.covered[*]
 //@   loop 1 invariant x >= 1 && k.slot == old(k.slot) && k.trapezoids == old(k.trapezoids) && k.covered == old(k.covered) && k.minLen == old(k.minLen) && k.maxDiff == old(k.maxDiff)
 //@   loop 2 invariant 0 <= idx && idx <= len(k.trapezoids) - k.slot - 1 && k.slot == old(k.slot) && k.trapezoids == old(k.trapezoids) && k.covered == old(k.covered) && k.minLen == old(k.minLen) && k.maxDiff == old(k.maxDiff)
+//@   loop 2 invariant [marks-later] forall j int :: 0 <= j && j <= k.slot && j < len(k.covered) ==> k.covered[j] == old(k.covered[j])
 //@   loop 2 invariant [guards] k.highEnd.Bepos - k.highEnd.Bbpos >= k.minLen && k.highEnd.Aepos - k.highEnd.Abpos >= k.minLen && k.highEnd.Error <= k.maxDiff
